@@ -256,6 +256,7 @@ type c16Case struct {
 	Code   int
 	Stdout string
 	Stderr string
+	Env    string   // stream bigfiles: the environment variable the command ran under (GOMAXPROCS=n)
 	Tree   *c16Tree // stream trees: the journal as written (an include tree); J is then the union of the members' directives
 }
 
@@ -272,6 +273,9 @@ func (tc *c16Case) Input() map[string]any {
 		a = "transcode FILE"
 	}
 	in := map[string]any{"journal": tc.Text, "args": a, "wire_journal": tc.J.Wire()}
+	if tc.Env != "" {
+		in["env"] = tc.Env
+	}
 	if tc.Tree != nil {
 		tc.Tree.describe(in)
 	}
@@ -855,6 +859,7 @@ func runC16(c *Ctx) {
 	d2 = append(d2, runStream("lifecycle", 0, n/4, false)...)
 	d2 = append(d2, c16RunTrees(c, dir, 0, c.N(2000, 40000))...)
 	d2 = append(d2, runStream("epochs", 0, c.N(1500, 30000), false)...)
+	d2 = append(d2, c16RunBig(c, dir, 0, c.N(10, 120))...)
 	runDecStream(c, c.N(2000, 20000))
 	// directed search: when code and model differ, widen the round (3x the budget of the stream, fresh indices):
 	// the invariants are evaluated on the real output of every additional case
@@ -1523,6 +1528,251 @@ func c16RunTrees(c *Ctx, dir string, lo, hi int) (disagree []int) {
 			if !ok {
 				disagree = append(disagree, cases[k].Idx)
 			}
+		}
+	}
+	return
+}
+
+// ---------------------------------------------------------------- stream "bigfiles": one file of the journal is large
+//
+// The property speaks about every journal; the other streams write files of a few dozen directives at most.  Here one
+// file of the journal (the root, an included member, or two members) holds 255-2000 bookings, each with a description of
+// its own, so that "every transaction of the journal exactly once" is decidable per booking; the file order is or is not
+// the order of the calendar.  The loader is a pipeline of goroutines (one parser and one converter per file, a builder
+// that collects what they push): what the builder receives must not depend on how the runtime schedules them, so every
+// journal is transcoded under GOMAXPROCS=1 (the sender of a hand-off runs on), 2 and 16.  The first run is judged like a
+// case of the stream trees (byte for byte against the model on the union of the members' directives, every Go and Lean
+// monitor on the real output); a run under another GOMAXPROCS whose output differs from the first is judged the same way.
+//
+// (Seeded change C16-k pushed the converted directives of a file in batches of 256 and recycled the buffer after the
+// hand-off: with more than 256 directives in a file a batch of bookings was lost and the next one printed twice.)
+
+var (
+	c16BigSizes    = []int{300, 257, 513, 1000, 256, 512, 2000, 255, 511, 769, 1025, 1500, 258, 768, 1024, 1280}
+	c16BigProcs    = []string{"1", "2", "16"}
+	c16BigAccounts = []string{"Assets:Bank", "Assets:Bank:Säule", "Assets:Cash", "Liabilities:Card", "Equity:Opening", "Expenses:Food", "Expenses:Rent:Flat", "Income:Job", "Assets:Depot"}
+)
+
+type c16BigRun struct {
+	Code        int
+	Stdout, Err string
+}
+
+func c16GenBig(c *Ctx, i int, sizes []int) (*c16Case, []int) {
+	const stream = "bigfiles"
+	r := c.Rng(stream, i)
+	val := Pick(r, c16Valuations)
+	tc := &c16Case{Stream: stream, Idx: i, V: val}
+	// how many bookings the large members hold
+	n := sizes[(i/2)%len(sizes)]
+	if i%2 == 1 {
+		n = r.Range(300, 2000)
+	}
+	layout := Pick(r, []string{"single", "included", "included", "leaf-of-chain", "two-large", "large-root-small-member"})
+	base := 737000 + r.Intn(1500)
+	span := Pick(r, []int{1, 2, 5, 30, 400})
+	accounts := append([]string(nil), c16BigAccounts...)
+	for k := len(accounts) - 1; k > 0; k-- {
+		m := r.Intn(k + 1)
+		accounts[k], accounts[m] = accounts[m], accounts[k]
+	}
+	accounts = accounts[:r.Range(2, 6)]
+	coms := []string{val}
+	var head []JDir
+	for _, cm := range []string{"USD", "AAPL", "EUR"} {
+		if cm != val && r.Chance(1, 2) {
+			coms = append(coms, cm)
+			head = append(head, JDir{Kind: 'p', Date: base, Com: cm, Price: fmt.Sprintf("%d.%02d", r.Range(0, 200), r.Range(1, 99)), Target: val})
+		}
+	}
+	for _, a := range accounts {
+		head = append(head, JDir{Kind: 'o', Date: base, Account: a})
+	}
+	// later quotes (value adjustments between the bookings), each on a day of its own per commodity
+	for _, cm := range coms[1:] {
+		seen := map[int]bool{}
+		for k := r.Intn(4); k > 0; k-- {
+			d := base + 1 + r.Intn(span+1)
+			if !seen[d] {
+				seen[d] = true
+				head = append(head, JDir{Kind: 'p', Date: d, Com: cm, Price: fmt.Sprintf("%d.%02d", r.Range(0, 200), r.Range(1, 99)), Target: val})
+			}
+		}
+	}
+	serial := 0
+	bookings := func(n int, tag string) []JDir {
+		ds := make([]JDir, n)
+		sorted := r.Chance(1, 2)
+		for k := range ds {
+			day := base + r.Intn(span)
+			if sorted {
+				day = base + k*span/n
+			}
+			a := r.Intn(len(accounts))
+			b := (a + 1 + r.Intn(len(accounts)-1)) % len(accounts)
+			qty := fmt.Sprintf("%d", r.Range(1, 5000))
+			if r.Chance(1, 2) {
+				qty = fmt.Sprintf("%d.%02d", r.Range(0, 900), r.Intn(100))
+			}
+			if r.Chance(1, 8) {
+				qty = "-" + qty
+			}
+			serial++
+			ds[k] = JDir{Kind: 't', Date: day, Desc: fmt.Sprintf("%s %05d", tag, serial), Bookings: []JBook{{accounts[a], accounts[b], qty, Pick(r, coms)}}}
+			if r.Chance(1, 10) { // a second booking
+				ds[k].Bookings = append(ds[k].Bookings, JBook{accounts[b], accounts[a], fmt.Sprintf("%d", r.Range(1, 50)), Pick(r, coms)})
+			}
+		}
+		return ds
+	}
+	t := &c16Tree{Shape: layout, Dist: "bigfiles"}
+	tc.Tree = t
+	file := func(rel string, ds []JDir) *c16TFile {
+		f := &c16TFile{Rel: rel, Tail: "\n", IncSp: " "}
+		for _, d := range ds {
+			f.Items = append(f.Items, c16TItem{Kind: 'd', Dir: d})
+		}
+		t.Files = append(t.Files, f)
+		return f
+	}
+	include := func(from *c16TFile, to int, first bool) {
+		it := c16TItem{Kind: 'i', Path: c16TRel("", t.Files[to].Rel), To: to}
+		if first {
+			from.Items = append([]c16TItem{it}, from.Items...)
+		} else {
+			from.Items = append(from.Items, it)
+		}
+	}
+	var counts []int
+	switch layout {
+	case "single":
+		file("all.knut", append(head, bookings(n, "booking")...))
+		counts = []int{n}
+	case "included":
+		root := file("root.knut", head)
+		file("inc/large.knut", bookings(n, "booking"))
+		include(root, 1, r.Bool())
+		counts = []int{n}
+	case "leaf-of-chain":
+		root := file("root.knut", head)
+		mid := file("mid.knut", bookings(r.Range(0, 20), "mid"))
+		file("y/large.knut", bookings(n, "booking"))
+		include(root, 1, r.Bool())
+		include(mid, 2, r.Bool())
+		counts = []int{n}
+	case "two-large":
+		root := file("root.knut", head)
+		m := sizes[r.Intn(len(sizes))]
+		file("a.knut", bookings(n, "first"))
+		file("b.knut", bookings(m, "second"))
+		include(root, 1, false)
+		include(root, 2, r.Bool())
+		counts = []int{n, m}
+	default:
+		root := file("root.knut", append(head, bookings(n, "booking")...))
+		file("small.knut", bookings(r.Range(1, 40), "small"))
+		include(root, 1, r.Bool())
+		counts = []int{n}
+	}
+	for _, f := range t.Files {
+		for k := 0; k+1 < len(f.Items); k++ {
+			f.Seps = append(f.Seps, "\n")
+		}
+	}
+	t.Root = t.Files[0].Rel
+	var union []JDir
+	var walk func(k int)
+	walk = func(k int) {
+		for _, it := range t.Files[k].Items {
+			if it.Kind == 'd' {
+				union = append(union, it.Dir)
+			}
+		}
+		for _, it := range t.Files[k].Items {
+			if it.Kind == 'i' {
+				walk(it.To)
+			}
+		}
+	}
+	walk(0)
+	tc.J = &Journal{Dirs: union}
+	tc.Text, _ = tc.J.Text()
+	tc.Tags = append(tc.Tags, "bigfiles:"+layout)
+	for _, m := range counts {
+		tc.Tags = append(tc.Tags, "bigfiles:bookings-in-a-file:"+c16BigBucket(m))
+	}
+	return tc, counts
+}
+
+func c16BigBucket(n int) string {
+	switch {
+	case n < 256:
+		return "<256"
+	case n == 256:
+		return "256"
+	case n <= 512:
+		return "257-512"
+	case n <= 1024:
+		return "513-1024"
+	}
+	return ">1024"
+}
+
+func c16RunBig(c *Ctx, dir string, lo, hi int) (disagree []int) {
+	const stream = "bigfiles"
+	var cases []*c16Case
+	for i := lo; i < hi; i++ {
+		if c.Want(stream, i) {
+			tc, _ := c16GenBig(c, i, c16BigSizes)
+			cases = append(cases, tc)
+		}
+	}
+	runs := make([][]c16BigRun, len(cases))
+	parallelFor(len(cases), 8, func(k int) {
+		tc := cases[k]
+		cd := filepath.Join(dir, fmt.Sprintf("big%d", tc.Idx+100000))
+		os.RemoveAll(cd)
+		tc.Tree.materialize(cd)
+		for _, p := range c16BigProcs {
+			env := []string{"GOMAXPROCS=" + p}
+			code, so, se := runKnut(c.KnutBin, 60*time.Second, env, tc.Args(cd+"/"+tc.Tree.Root)...)
+			if code == -2 { // a busy machine: once more, with three times the time
+				code, so, se = runKnut(c.KnutBin, 180*time.Second, env, tc.Args(cd+"/"+tc.Tree.Root)...)
+			}
+			runs[k] = append(runs[k], c16BigRun{code, so, se})
+		}
+		os.RemoveAll(cd)
+	})
+	bt := c.NewBatch()
+	flags := make([]bool, len(cases))
+	for k, tc := range cases {
+		flags[k] = true
+		for p, run := range runs[k] {
+			if run.Code == -2 {
+				c.Tag("timeout")
+				continue
+			}
+			if p > 0 && run.Code == runs[k][0].Code && run.Stdout == runs[k][0].Stdout && runs[k][0].Code != -2 {
+				c.Tag("bigfiles:same-output-under-GOMAXPROCS=" + c16BigProcs[p])
+				continue
+			}
+			one := *tc
+			one.Env = "GOMAXPROCS=" + c16BigProcs[p]
+			one.Code, one.Stdout, one.Stderr = run.Code, run.Stdout, run.Err
+			c16Check(c, bt, &one, &flags[k])
+			c.Tag(map[bool]string{true: "bigfiles-accepted", false: "bigfiles-rejected"}[run.Code == 0])
+			c.Class(fmt.Sprintf("c16/big/%v/%s/%s", run.Code == 0, tc.Tree.Shape, strings.Join(tc.Tags[1:], "+")))
+		}
+		if tc.Idx < 1 {
+			in := tc.Input()
+			delete(in, "wire_journal")
+			c.Sample(map[string]any{"args": in["args"], "tree": in["tree"], "bookings": len(tc.J.Dirs)})
+		}
+	}
+	bt.Flush()
+	for k, ok := range flags {
+		if !ok {
+			disagree = append(disagree, cases[k].Idx)
 		}
 	}
 	return
